@@ -429,12 +429,13 @@ def TAdv (t t' : Txn) : Prop := t' = t ∨ (t'.dirty = true ∧ ∃ es, Adv t.ca
 
 theorem Txn.insert_adv {sch : SchemaEval} {t t' : Txn} {h : Handle} {list : List Doc} {ordered : Bool}
     {nu nu' : Nu} {r : TResult} (hr : t.insert sch h list ordered nu = .ok (t', r, nu'))
-    (hk : KeysDistinct (ensureNs t'.catalog h)) : TAdv t t' := by
+    (hk : h ≠ oplogHandle → KeysDistinct (ensureNs t'.catalog h)) : TAdv t t' := by
   unfold Txn.insert at hr
   split at hr
   · cases hr
   · rename_i hw
     have hno := writable_not_oplog hw
+    replace hk := hk hno
     simp only [Except.ok.injEq, Prod.mk.injEq] at hr
     obtain ⟨rfl, _, _⟩ := hr
     have hb := Adv.ensure_base t.catalog h hno
@@ -595,13 +596,14 @@ theorem deleteOp_adv {sch : SchemaEval} {cat cat' : Catalog} {h : Handle} {q : D
 
 theorem Txn.delete_adv {sch : SchemaEval} {t t' : Txn} {h : Handle} {q : Doc} {sort : Option Doc}
     {skip limit : Int} {nu nu' : Nu} {r : TResult}
-    (hid : DocIdsDistinct (ensureNs t.catalog h)) (hk : KeysDistinct (ensureNs t.catalog h))
+    (hok : h ≠ oplogHandle → DocIdsDistinct (ensureNs t.catalog h) ∧ KeysDistinct (ensureNs t.catalog h))
     (hr : t.delete sch h q sort skip limit nu = .ok (t', r, nu')) : TAdv t t' := by
   unfold Txn.delete at hr
   split at hr
   · cases hr
   · rename_i hw
     have hno := writable_not_oplog hw
+    obtain ⟨hid, hk⟩ := hok hno
     split at hr
     · simp only [Except.ok.injEq, Prod.mk.injEq] at hr; exact .inl hr.1.symm
     · split at hr
@@ -851,5 +853,281 @@ theorem Txn.drop_adv {t t' : Txn} {h : Handle} {nu nu' : Nu} (hr : t.drop h nu =
               rw [this] at hah
               exact hhit hah
             simp [hhit, hnd]
+
+/-- the coherence facts used: in every namespace but the oplog, document identities are pairwise
+    distinct and `_id`s are pairwise (structurally) distinct -/
+def CatOK (cat : Catalog) : Prop :=
+  ∀ h, h ≠ oplogHandle → DocIdsDistinct (ensureNs cat h) ∧ KeysDistinct (ensureNs cat h)
+
+theorem ensureNs_appendEvs (cn : Catalog × Nu) (es : List EvSpec) (h' : Handle) (hne : h' ≠ oplogHandle) :
+    ensureNs (appendEvs cn es).1 h' = ensureNs cn.1 h' := by
+  unfold ensureNs
+  rw [appendEvs_get_other _ _ _ hne]
+
+theorem deleteOp_catOK {sch : SchemaEval} {cat cat' : Catalog} {h : Handle} {q : Doc} {sort : Option Doc}
+    {skip limit : Int} {nu nu' : Nu} {res : TResult} (hok : CatOK cat)
+    (hr : deleteOp sch cat h q sort skip limit nu = .ok (cat', res, nu')) : CatOK cat' := by
+  unfold deleteOp at hr
+  simp only at hr
+  split at hr
+  · cases hr
+  · rename_i coll list hdel
+    simp only [Except.ok.injEq, Prod.mk.injEq] at hr
+    obtain ⟨rfl, _, _⟩ := hr
+    obtain ⟨_, hdocs⟩ := Coll.delete_shape hdel
+    have hf := foldl_appendOplog list (fun sd => (⟨h, "delete", some sd.doc, none⟩ : EvSpec)) (cat.set h coll, nu)
+    simp only at hf
+    rw [hf]
+    intro h' hne
+    rw [ensureNs_appendEvs _ _ _ hne]
+    by_cases e : h' = h
+    · subst e
+      have : ensureNs (cat.set h' coll) h' = coll := by simp [ensureNs, Catalog.get?_set_self]
+      rw [this]
+      obtain ⟨h1, h2⟩ := hok h' hne
+      unfold DocIdsDistinct KeysDistinct at *
+      rw [hdocs]
+      exact ⟨h1.sublist List.filter_sublist, h2.sublist List.filter_sublist⟩
+    · have : ensureNs (cat.set h coll) h' = ensureNs cat h' := by
+        simp [ensureNs, Catalog.get?_set_other _ _ _ _ e]
+      rw [this]
+      exact hok h' hne
+
+theorem expire_go_adv (sch : SchemaEval) (nowMs : Int) (l : List (Handle × Coll))
+    (hl : ∀ hc ∈ l, hc.1 = oplogHandle → hc.2.indexes.filter (fun (_, i) => i.config.expiry > 0) = []) :
+    ∀ (cat : Catalog) (nu : Nu) (deleted : Nat) (cat' : Catalog) (nu' : Nu) (deleted' : Nat), CatOK cat →
+      Txn.expire.go sch nowMs cat nu deleted l = .ok (cat', nu', deleted') → ∃ es, Adv cat cat' es := by
+  induction l with
+  | nil =>
+    intro cat nu deleted cat' nu' deleted' _ hr
+    simp only [Txn.expire.go, Except.ok.injEq, Prod.mk.injEq] at hr
+    exact ⟨[], hr.1 ▸ Adv.refl cat⟩
+  | cons hc r ih =>
+    intro cat nu deleted cat' nu' deleted' hok hr
+    obtain ⟨h, c⟩ := hc
+    rw [Txn.expire.go] at hr
+    simp only at hr
+    have ih' := ih (fun x hx => hl x (List.mem_cons_of_mem _ hx))
+    by_cases hempty : (c.indexes.filter fun (_, i) => i.config.expiry > 0) = []
+    · simp only [hempty, List.isEmpty_nil, ↓reduceIte] at hr
+      exact ih' _ _ _ _ _ _ hok hr
+    · have hne : (c.indexes.filter fun (_, i) => i.config.expiry > 0).isEmpty = false := by
+        cases hq : (c.indexes.filter fun (_, i) => i.config.expiry > 0) with
+        | nil => exact absurd hq hempty
+        | cons _ _ => rfl
+      have hno : h ≠ oplogHandle := fun e => hempty (hl (h, c) (List.mem_cons_self ..) e)
+      simp only [hne, Bool.false_eq_true, ↓reduceIte] at hr
+      split at hr
+      · cases hr
+      · rename_i cat1 res nu1 hdel
+        obtain ⟨es1, he1⟩ := deleteOp_adv hno (hok h hno).1 (hok h hno).2 hdel
+        obtain ⟨es, he⟩ := ih' _ _ _ _ _ _ (deleteOp_catOK hok hdel) hr
+        exact ⟨_, Adv.trans he1 he⟩
+
+theorem Txn.expire_adv {sch : SchemaEval} {t t' : Txn} {nowMs : Int} {nu nu' : Nu} {n : Nat}
+    (hp : OplogPlain t.catalog) (hok : CatOK t.catalog) (hr : t.expire sch nowMs nu = .ok (t', n, nu')) : TAdv t t' := by
+  unfold Txn.expire at hr
+  split at hr
+  · cases hr
+  · rename_i cat nu1 deleted hgo
+    split at hr
+    · simp only [Except.ok.injEq, Prod.mk.injEq] at hr
+      obtain ⟨rfl, _, _⟩ := hr
+      exact .inr ⟨rfl, expire_go_adv sch nowMs _ hp _ _ _ _ _ _ hok hgo⟩
+    · simp only [Except.ok.injEq, Prod.mk.injEq] at hr
+      exact .inl hr.1.symm
+
+/-! ### the driver calls -/
+
+/-- the calls for which `oplog_faithful` is proved (all reads, inserts, deletes, drops, index and
+    collection management, expiry); NOT covered: update*, replaceOne, findOneAndReplace/Update, bulkWrite -/
+def Call.covered : Call → Bool
+  | .updateOne .. | .updateMany .. | .replaceOne .. | .findOneAndReplace .. | .findOneAndUpdate .. | .bulkWrite .. => false
+  | _ => true
+
+theorem Sys.commit_adv (s : Sys) (t : Txn) (nu : Nu) (h : TAdv { catalog := s.catalog } t) :
+    ∃ es, Adv s.catalog (s.commit t nu).catalog es := by
+  unfold Sys.commit
+  rcases h with rfl | ⟨hd, es, he⟩
+  · exact ⟨[], Adv.refl _⟩
+  · simp only [hd, ↓reduceIte]
+    exact ⟨es, he⟩
+
+theorem insert_hk {sch : SchemaEval} {s : Sys} {t : Txn} {h : Handle} {list : List Doc} {ordered : Bool}
+    {nu nu' : Nu} {r : TResult} (hm : Txn.insert sch { catalog := s.catalog } h list ordered nu = .ok (t, r, nu'))
+    (hok : CatOK s.catalog) (hok' : CatOK (s.commit t nu').catalog) :
+    h ≠ oplogHandle → KeysDistinct (ensureNs t.catalog h) := by
+  intro hno
+  rcases Txn.insert_step hm with rfl | ⟨hd, _⟩
+  · exact (hok h hno).2
+  · have : (s.commit t nu').catalog = t.catalog := by simp [Sys.commit, hd]
+    rw [this] at hok'
+    exact (hok' h hno).2
+
+theorem Sys.step_adv (sch : SchemaEval) (s s' : Sys) (c : Call) (oids : List V) (r : Reply)
+    (hcov : c.covered = true) (hp : OplogPlain s.catalog) (hok : CatOK s.catalog) (hok' : CatOK s'.catalog)
+    (hr : Sys.step sch s c oids = .ok (s', r)) : ∃ es, Adv s.catalog s'.catalog es := by
+  cases c with
+  | insertOne h doc =>
+    simp only [Sys.step] at hr
+    split at hr
+    · cases hr
+    · rename_i t res nu1 hm
+      split at hr
+      · cases hr
+      · split at hr
+        · simp only [Except.ok.injEq, Prod.mk.injEq] at hr
+          obtain ⟨rfl, _⟩ := hr
+          exact Sys.commit_adv s t nu1 (Txn.insert_adv hm (insert_hk hm hok hok'))
+        · cases hr
+  | insertMany h docs ordered =>
+    simp only [Sys.step] at hr
+    split at hr
+    · cases hr
+    · rename_i t res nu1 hm
+      simp only [Except.ok.injEq, Prod.mk.injEq] at hr
+      obtain ⟨rfl, _⟩ := hr
+      exact Sys.commit_adv s t nu1 (Txn.insert_adv hm (insert_hk hm hok hok'))
+  | find h q o =>
+    simp only [Sys.step] at hr
+    split at hr
+    · cases hr
+    · split at hr
+      · cases hr
+      · simp only [Except.ok.injEq, Prod.mk.injEq] at hr
+        exact hr.1 ▸ ⟨[], Adv.refl _⟩
+  | findOne h q o =>
+    simp only [Sys.step] at hr
+    split at hr
+    · cases hr
+    · simp only [Except.ok.injEq, Prod.mk.injEq] at hr
+      exact hr.1 ▸ ⟨[], Adv.refl _⟩
+    · split at hr
+      · cases hr
+      · simp only [Except.ok.injEq, Prod.mk.injEq] at hr
+        exact hr.1 ▸ ⟨[], Adv.refl _⟩
+  | count h q skip limit =>
+    simp only [Sys.step] at hr
+    split at hr
+    · cases hr
+    · simp only [Except.ok.injEq, Prod.mk.injEq] at hr
+      exact hr.1 ▸ ⟨[], Adv.refl _⟩
+  | estCount h =>
+    simp only [Sys.step] at hr
+    split at hr
+    · cases hr
+    · simp only [Except.ok.injEq, Prod.mk.injEq] at hr
+      exact hr.1 ▸ ⟨[], Adv.refl _⟩
+  | distinct h field q =>
+    simp only [Sys.step] at hr
+    split at hr
+    · cases hr
+    · simp only [Except.ok.injEq, Prod.mk.injEq] at hr
+      exact hr.1 ▸ ⟨[], Adv.refl _⟩
+  | updateOne h q u upsert fs => simp [Call.covered] at hcov
+  | updateMany h q u upsert fs => simp [Call.covered] at hcov
+  | replaceOne h q repl upsert => simp [Call.covered] at hcov
+  | deleteOne h q =>
+    simp only [Sys.step] at hr
+    split at hr
+    · cases hr
+    · rename_i t res nu1 hm
+      simp only [Except.ok.injEq, Prod.mk.injEq] at hr
+      exact hr.1 ▸ Sys.commit_adv s t nu1 (Txn.delete_adv (hok h) hm)
+  | deleteMany h q =>
+    simp only [Sys.step] at hr
+    split at hr
+    · cases hr
+    · rename_i t res nu1 hm
+      simp only [Except.ok.injEq, Prod.mk.injEq] at hr
+      exact hr.1 ▸ Sys.commit_adv s t nu1 (Txn.delete_adv (hok h) hm)
+  | findOneAndDelete h q sort proj =>
+    simp only [Sys.step] at hr
+    split at hr
+    · cases hr
+    · rename_i t res nu1 hm
+      split at hr
+      · cases hr
+      · simp only [Except.ok.injEq, Prod.mk.injEq] at hr
+        exact hr.1 ▸ Sys.commit_adv s t nu1 (Txn.delete_adv (hok h) hm)
+  | findOneAndReplace h q repl sort proj upsert after => simp [Call.covered] at hcov
+  | findOneAndUpdate h q u sort proj upsert after fs => simp [Call.covered] at hcov
+  | bulkWrite h models ordered => simp [Call.covered] at hcov
+  | createIndex h name config =>
+    simp only [Sys.step] at hr
+    split at hr
+    · cases hr
+    · rename_i t name' hm
+      simp only [Except.ok.injEq, Prod.mk.injEq] at hr
+      exact hr.1 ▸ Sys.commit_adv s t _ (Txn.createIndex_adv hm)
+  | dropIndex h name =>
+    simp only [Sys.step] at hr
+    split at hr
+    · cases hr
+    · rename_i t hm
+      simp only [Except.ok.injEq, Prod.mk.injEq] at hr
+      exact hr.1 ▸ Sys.commit_adv s t _ (Txn.dropIndex_adv hm)
+  | dropAllIndexes h =>
+    simp only [Sys.step] at hr
+    split at hr
+    · cases hr
+    · rename_i t hm
+      simp only [Except.ok.injEq, Prod.mk.injEq] at hr
+      exact hr.1 ▸ Sys.commit_adv s t _ (Txn.dropIndex_adv hm)
+  | dropIndexByKey h key =>
+    simp only [Sys.step] at hr
+    split at hr
+    · cases hr
+    · rename_i t hm
+      simp only [Except.ok.injEq, Prod.mk.injEq] at hr
+      exact hr.1 ▸ Sys.commit_adv s t _ (Txn.dropIndexByKey_adv hm)
+  | listIndexes h =>
+    simp only [Sys.step] at hr
+    split at hr
+    · cases hr
+    · simp only [Except.ok.injEq, Prod.mk.injEq] at hr
+      exact hr.1 ▸ ⟨[], Adv.refl _⟩
+  | createCollection h =>
+    simp only [Sys.step] at hr
+    split at hr
+    · cases hr
+    · rename_i t hm
+      simp only [Except.ok.injEq, Prod.mk.injEq] at hr
+      exact hr.1 ▸ Sys.commit_adv s t _ (Txn.create_adv hm)
+  | dropCollection h =>
+    simp only [Sys.step] at hr
+    split at hr
+    · cases hr
+    · rename_i t nu1 hm
+      simp only [Except.ok.injEq, Prod.mk.injEq] at hr
+      exact hr.1 ▸ Sys.commit_adv s t _ (Txn.drop_adv hm)
+  | dropDatabase db =>
+    simp only [Sys.step] at hr
+    split at hr
+    · cases hr
+    · rename_i t nu1 hm
+      simp only [Except.ok.injEq, Prod.mk.injEq] at hr
+      exact hr.1 ▸ Sys.commit_adv s t _ (Txn.drop_adv hm)
+  | listCollections db q =>
+    simp only [Sys.step] at hr
+    split at hr
+    · cases hr
+    · split at hr
+      · cases hr
+      · simp only [Except.ok.injEq, Prod.mk.injEq] at hr
+        exact hr.1 ▸ ⟨[], Adv.refl _⟩
+  | listDatabases q =>
+    simp only [Sys.step] at hr
+    split at hr
+    · cases hr
+    · simp only [Except.ok.injEq, Prod.mk.injEq] at hr
+      exact hr.1 ▸ ⟨[], Adv.refl _⟩
+  | expire nowMs =>
+    simp only [Sys.step] at hr
+    split at hr
+    · cases hr
+    · rename_i t n nu1 hm
+      simp only [Except.ok.injEq, Prod.mk.injEq] at hr
+      exact hr.1 ▸ Sys.commit_adv s t _ (Txn.expire_adv hp hok hm)
 
 end Lungo
